@@ -218,9 +218,8 @@ def h_default_cross(eng, items):
         if info.kind in ("base", "mult", "dimensionless") and not info.inexact:
             r = ureg.Quantity(x, text).to_root_units()
             eng.prove(Or(*[Eq(r.magnitude, x * (d.prefix_defs[pp][0] if pp else 1) * inf[uu].num) for pp, uu in taken]), f"factor-applied-once:{text}")
-        ps = (d.prefix_defs[p][1] or p) if p else ""
-        us = d.units[u].symbol or u
-        eng.prove(ureg.get_symbol(text) == ps + us, f"symbol:{text}")
+        syms = {((d.prefix_defs[pp][1] or pp) if pp else "") + (d.units[uu].symbol or uu) for pp, uu in taken}
+        eng.prove(ureg.get_symbol(text) in syms, f"symbol:{text}")
 
 
 def h_case_insensitive(eng, names):
